@@ -40,7 +40,17 @@ func TestMain(m *testing.M) {
 	rec.Assume("reference evaluator of the mini language (Go semantics: left-to-right evaluation, defer arguments evaluated at the defer statement, LIFO defers after the result is computed, wrapping int64 arithmetic); the mini language avoids everything Go leaves unspecified")
 	rec.Assume("full single-step trace T is taken from gomacro itself (Interp.Debug starts in step mode) and checked against the evaluator's sequence of executed statements; stops of scripted sessions are T filtered by the depth rule of the property statement; a breakpoint statement stops under every command (doc of OptDebugger) and statements without source position are never shown and consume no command (fast/debug Debugger.Show)")
 	rec.Assume("harness go.mod carries godebug default=go1.18 (settings of gomacro's own module)")
+	// the first fast.New() of a process is slow (export data lookup): pay it here, not
+	// inside rapid's per-iteration timer (rapid stops early when iterations look slow)
+	vlib.Try(func() { fast.New() })
 	os.Exit(vlib.Main(m, rec))
+}
+
+// known reports whether the exclusion of a known finding is active. C19_NO_EXCLUDE
+// (development only: a list of finding ids) switches exclusions off, to try a fix in a
+// scratch worktree before the entry of known_findings.json is changed to "fixed".
+func known(id string) bool {
+	return rec.Known(id) && !strings.Contains(os.Getenv("C19_NO_EXCLUDE"), id)
 }
 
 // ---------------------------------------------------------------- scripted debugger
@@ -535,8 +545,15 @@ func genScript(t *rapid.T, label string) []string {
 }
 
 func TestDebugger(t *testing.T) {
-	allowFallOff := !rec.Known("F-C19-1")
-	rec.Check(t, rec.Scale(150, 1500), func(t *rapid.T) {
+	allowFallOff := !known("F-C19-1")
+	want, ran := rec.Scale(300, 500), 0
+	defer func() {
+		if !rec.ReplayOnly() && !t.Failed() && ran < want {
+			t.Fatalf("only %d of %d cases ran (rapid stopped early): inconclusive", ran, want)
+		}
+	}()
+	rec.Check(t, want, func(t *rapid.T) {
+		ran++
 		p := genProg(t, allowFallOff)
 		src := p.Source()
 		exp := p.Evaluate(stmtLimit)
@@ -555,7 +572,7 @@ func TestDebugger(t *testing.T) {
 		for i := 0; i < ns; i++ {
 			c.Scripts = append(c.Scripts, genScript(t, fmt.Sprintf("s%d", i)))
 		}
-		st, err := checkCase(c, rec.Known("F-C19-2"), false)
+		st, err := checkCase(c, known("F-C19-2"), false)
 		if err != nil {
 			dropSessions()
 			first := err
